@@ -37,7 +37,7 @@ def key_alphabet(n256=None, nother=None):
     for crv in A.OKP_SIG + A.OKP_DH:
         for i, kind in ((0, "hash"), (1, "hash"), (0, "zero"), (0, "counter")):
             keys.append((f"OKP-{crv}-{kind}{i}", A.okp_jwk(crv, i, kind)))
-    for name in (A.RSA_NAMES if t else ["rsa_1024_a", "rsa_2048_a", "rsa_2048_e3"]):
+    for name in (A.RSA_NAMES if t else ["rsa_1024_a", "rsa_1024_p_less_than_q", "rsa_2048_a", "rsa_2048_e3"]):
         keys.append((name, ("rsa", name)))
     return keys
 
